@@ -20,7 +20,7 @@ def tau_for(case):
 
 def play(case, ctx, keep_states=False, cap_factor=1):
     spec = SPECS[case["env"]]
-    env = spec.env(case["cfg"])
+    env = ctx.guard(spec.env, case["cfg"], what=f"build_env|{case['env']}")
     inst = ctx.guard(spec.instance, case, what=f"instance|{case['env']}")
     B = inst.batch_size[0]
     if case.get("seed", 0) % 3 == 0 and case.get("src") == "gen":
